@@ -230,6 +230,10 @@ func (g *gen) inlineStyle() string {
 	}
 	if g.chance(0.08) {
 		st = append(st, "position:relative", fmt.Sprintf("top:%dpx", g.r.Intn(7)-3))
+		if g.chance(0.4) {
+			st = append(st, "z-index:"+g.pick("1", "0", "-1", "2"))
+			g.f("stacking_zindex")
+		}
 	}
 	if g.chance(0.08) {
 		st = append(st, "color:#"+g.pick("c00", "080", "00c", "555"))
@@ -313,6 +317,10 @@ func (g *gen) inlineBlock() {
 	}
 	if g.chance(0.3) {
 		st = append(st, "vertical-align:"+g.pick("top", "middle", "bottom", "baseline"))
+	}
+	if g.chance(0.1) {
+		st = append(st, g.pick("opacity:0.5", "position:relative;z-index:1", "position:relative", "transform:scale(0.5)", "overflow:hidden"))
+		g.f("stacking_inline_block")
 	}
 	g.sb.WriteString(`<span style="` + strings.Join(st, ";") + `">`)
 	g.lineBreaks += 2
@@ -513,6 +521,20 @@ func (g *gen) blockStyle(allowBreaks bool) []string {
 	}
 	if g.chance(0.06) {
 		st = append(st, "position:relative", fmt.Sprintf("left:%dpx", r.Intn(9)-4))
+		if g.chance(0.4) {
+			st = append(st, "z-index:"+g.pick("1", "0", "-1", "2"))
+			g.f("stacking_zindex")
+		}
+	}
+	// boxes that establish stacking contexts are painted through another path (and opacity through a
+	// group canvas): the text inside must still be drawn exactly once
+	if g.chance(0.05) {
+		st = append(st, "opacity:"+g.pick("0.5", "0.9", "0.25"))
+		g.f("stacking_opacity")
+	}
+	if g.chance(0.03) {
+		st = append(st, "transform:"+g.pick("translate(1px,2px)", "scale(0.5)", "rotate(10deg)"))
+		g.f("stacking_transform")
 	}
 	if g.chance(0.04) {
 		st = append(st, "overflow:hidden")
@@ -688,6 +710,10 @@ func (g *gen) list() {
 				continue
 			}
 			keep = append(keep, d)
+		}
+		if g.inHide {
+			// the marker of an item inside a hidden element is hidden too, wherever its box ends up
+			g.hidden = append(g.hidden, id)
 		}
 		restore := g.hideMaybe(&id, &keep)
 		g.sb.WriteString("<li" + attrs(id, keep) + ">")
@@ -979,6 +1005,17 @@ func Generate(r *rand.Rand, i int, tier string) Input {
 	}
 	g.vsum += bodyV
 
+	// running elements (CSS GCPM): taken out of the flow, shown in a page-margin box of every page
+	// from the page of their anchor on
+	var runNames []string
+	if r.Intn(100) < 8 {
+		runNames = append(runNames, "hd")
+		if r.Intn(3) == 0 {
+			runNames = append(runNames, "ft")
+		}
+	}
+	runPlaced := 0
+
 	// body content
 	nTop := 1 + r.Intn(10)
 	fixedDone := false
@@ -997,6 +1034,26 @@ func Generate(r *rand.Rand, i int, tier string) Input {
 		if !g.single && r.Intn(8) == 0 && g.plainTable(bodyV) {
 			continue
 		}
+		// A running element is registered on the page where its line / block is first tried, and the
+		// registration stays when that content is pushed to the next page (finding
+		// running-element-stale-page): it is emitted only where nothing can be pushed — as the first
+		// child of <body> or as the first child of a block that starts a page after a forced break.
+		if runPlaced < len(runNames) && (k == 0 || r.Intn(4) == 0) {
+			if k == 0 {
+				g.running(runNames[runPlaced])
+			} else {
+				g.sb.WriteString(`<div style="break-before:page">`)
+				g.running(runNames[runPlaced])
+				g.depth++
+				for j := 1 + r.Intn(2); j > 0 && g.budget(); j-- {
+					g.block()
+				}
+				g.depth--
+				g.sb.WriteString("</div>\n")
+			}
+			runPlaced++
+			continue
+		}
 		if r.Intn(10) == 0 {
 			g.inlineContent(1 + r.Intn(8))
 			g.lineBreaks++
@@ -1006,7 +1063,17 @@ func Generate(r *rand.Rand, i int, tier string) Input {
 		g.block()
 	}
 
+	for runPlaced < len(runNames) {
+		g.sb.WriteString(`<div style="break-before:page">`)
+		g.running(runNames[runPlaced])
+		g.word()
+		g.sb.WriteString("</div>\n")
+		runPlaced++
+	}
 	pm := []int{0, 0, 4, 8, 10, 20}[r.Intn(6)]
+	if len(runNames) > 0 && pm < 10 {
+		pm = 20
+	}
 	pageH := g.pageH
 	mode := "paged"
 	if g.single {
@@ -1021,6 +1088,9 @@ func Generate(r *rand.Rand, i int, tier string) Input {
 	}
 	var pageSt string
 	pageSt = fmt.Sprintf("@page{size:%dpx %dpx;margin:%dpx}", int(g.pageW)+2*pm, int(pageH)+2*pm, pm)
+	for _, n := range runNames {
+		pageSt += fmt.Sprintf("@page{@%s{content:element(%s);font-family:%s;font-size:8px}}", map[string]string{"hd": g.pick("top-center", "top-left"), "ft": g.pick("bottom-center", "bottom-right")}[n], n, font)
+	}
 	if g.pageSel > 0 {
 		pageSt += fmt.Sprintf("@page :left{margin-top:%dpx}@page :first{margin-bottom:%dpx}", pm+g.pageSel, pm+r.Intn(g.pageSel+1))
 	}
@@ -1101,6 +1171,18 @@ func (g *gen) fixed() bool {
 	g.sb.WriteString(`<div` + attrs(id, st) + `>` + txt + "</div>\n")
 	g.lineBreaks += 2 + n
 	return true
+}
+
+// running emits a running element at body level: position:running(name) removes it from the flow;
+// content:element(name) in a page-margin box shows it on every page from its anchor page on.
+func (g *gen) running(name string) {
+	g.f("running")
+	id := g.newID("r")
+	f := g.enter("running", id, false)
+	_ = f
+	txt, _ := g.plainWords(1 + g.r.Intn(3))
+	g.leave()
+	g.sb.WriteString(`<div id="` + id + `" style="position:running(` + name + `);white-space:nowrap">` + txt + "</div>\n")
 }
 
 // plainTable emits, at body level of a paged document, a table with header / footer groups whose
